@@ -20,7 +20,7 @@ def _c04_min_classes():
             m['R1/%s/%s' % (f, r)] = 30          # DESIGN 6/C04: >= 30 R1 cases per (family, rule), oracle applied and passed
             if f not in ('GenEigsSolver', 'GenEigsRealShiftSolver', 'GenEigsComplexShiftSolver') and r != 'SmallestMagn':
                 m['R2/%s/%s' % (f, r)] = 30      # exterior rules, ncv < n
-    m.update({'R1/float': 1000, 'R1/long double': 1000, 'R2/float': 500, 'R2/long double': 500, 'selection_verified/R3': 1000,
+    m.update({'matrix/reflection_symmetric': 1500, 'R1/float': 1000, 'R1/long double': 1000, 'R2/float': 500, 'R2/long double': 500, 'selection_verified/R3': 1000,
               'singular_class/R1/zero_wanted': 300, 'singular_class/R3/zero_wanted': 100, 'interior_target/R3': 100, 'two_sided_magnitude_target/R3': 100,
               'R2/DavidsonSymEigsSolver/LargestAlge': 100, 'R2/DavidsonSymEigsSolver/SmallestAlge': 100, 'R2/DavidsonSymEigsSolver/LargestMagn': 100,
               'R2/DavidsonSymEigsSolver/SmallestMagn': 100, 'R1/PartialSVDSolver/largest': 200, 'R2/PartialSVDSolver/largest': 200,
@@ -32,7 +32,7 @@ PROPS['C04'] = dict(
     level='exploration',
     technique='rapidcheck generation of prescribed spectra (key grids spaced >= 1 % of the key spread, in the variable the rule is documented to act on) x every solver family x every supported rule x three '
               'regimes (ncv = n exactly decidable; ncv < n one-ended target; ncv < n general / interior / two-ended / singular); long double reference spectrum of the rounded input; multiset-of-keys oracle',
-    level_text='Random search with shrinking over {SymEigsSolver, HermEigsSolver, GenEigsSolver, SymEigsShiftSolver, GenEigsRealShiftSolver, GenEigsComplexShiftSolver (user functor operators), SymGEigsSolver '
+    level_text='(A quarter of the plain symmetric / Hermitian / shift-invert matrices are exactly reflection-symmetric, J A J = A, with the prescribed eigenvalues alternating between the two symmetry classes: the documented random default start vector must reach both.) Random search with shrinking over {SymEigsSolver, HermEigsSolver, GenEigsSolver, SymEigsShiftSolver, GenEigsRealShiftSolver, GenEigsComplexShiftSolver (user functor operators), SymGEigsSolver '
                'Cholesky / RegularInverse, SymGEigsShiftSolver ShiftInvert / Buckling / Cayley (library wrappers)} x {float, double, long double}, plus DavidsonSymEigsSolver, PartialSVDSolver and LOBPCGSolver in double. '
                'The spectrum is built in the variable the rule acts on (lambda, or nu = 1/(lambda-sigma), lambda/(lambda-sigma), (lambda+sigma)/(lambda-sigma); for the complex shift lambda is prescribed and the groups are '
                'picked so that the keys of nu are spaced): keys |nu|, nu, Re nu, |Im nu| on jittered grids with consecutive gaps >= 1.25 % of the spread, definite / indefinite / mixed-sign shapes, conjugate pairs for the '
